@@ -2,5 +2,6 @@ CONSTANTS
   SegMax = 65535
   MaxBatch = 20
 SPECIFICATION TraceSpec
-INVARIANT ObsOK
+INVARIANT Report
+POSTCONDITION AllConsumed
 CHECK_DEADLOCK FALSE
